@@ -9,6 +9,8 @@ from harness import lens_common as lc
 ID = "C03"
 LEAN_MODULES = ["HierArc.Props.C03"]
 TRANSLATE = ["tables"]
+# when the translator cannot follow a rewritten source, the last generated model is run against the implementation instead
+TRANSLATOR_FALLBACK = True
 RULE = ("for each of the 14 likelihood types: random lens configuration (IFU flag, alpha/beta scaling "
         "properties, global Gaussian LOS population or none, 1-d kinematic scaling grid, lambda_mst "
         "distribution flag) x random sharp hyper-parameters x random distances; streams: above the 1e-4 "
